@@ -591,6 +591,142 @@ theorem shutdown_cancels_all (cfg : Cfg) (s : State) (hr : Reachable cfg s) :
   rw [if_pos hlt]
   simp
 
+/-! ### round 8: Untrack of a pin that still waits in the channel; whole histories after one instruction
+
+What the daemon holds for a cid comes from EARLIER operations, not from the operation that is in the table now. So `Untrack`
+must queue an Unpin whatever the table holds — also when the entry is a pin that no worker has picked up yet (a cid that is
+already pinned, re-tracked while every worker is busy). `untrack_unpin_on_its_way`: it always does. `unqueue_shortcut_breaks`:
+the tempting shortcut "cancel the queued pin and forget it" (seeded change C05f) ends quiescent with the daemon pinning a cid the
+pinset does not have, status unpinned, and a recover round finds nothing. `untrack_converges` / `track_converges`: the first
+sentence of the property as a statement about the whole history after ONE instruction, from any reachable state. -/
+/-- `Untrack(c)` — whatever the table holds for `c` (nothing, a pin still waiting in the channel, a Pin request in flight,
+    an error, an unpin) — leaves an UNPIN operation as the table entry of `c`, and that operation is either refused
+    (ErrFullQueue, error phase) or alive and on its way: in the unpin channel, or its Unpin request parked at the daemon. -/
+theorem untrack_unpin_on_its_way (cfg : Cfg) (s : State) (c : Nat) (hr : Reachable cfg s) :
+    ∃ i, (untrack cfg s c).1.cur c = some i ∧ ((untrack cfg s c).1.ops i).typ = .unpin ∧
+      (((untrack cfg s c).2 = .full ∧ ((untrack cfg s c).1.ops i).phase = .error) ∨
+       ((untrack cfg s c).2 = .nil ∧ ((untrack cfg s c).1.ops i).cancelled = false ∧
+          (i ∈ (untrack cfg s c).1.unpinQ ∨ ∃ k ∈ (untrack cfg s c).1.calls, k.op = i ∧ k.kind = .unpin))) := by
+  have hr' : Reachable cfg (step cfg s (.untrack c)) := .step _ hr
+  have hs : step cfg s (.untrack c) = (untrack cfg s c).1 := rfl
+  rw [hs] at hr'
+  have hi := inv_reachable hr'
+  have hi2 := inv2_reachable hr'
+  have key : ∃ i, (untrack cfg s c).1.cur c = some i ∧ ((untrack cfg s c).1.ops i).typ = .unpin ∧
+      ((untrack cfg s c).2 = .full → ((untrack cfg s c).1.ops i).phase = .error) ∧
+      ((untrack cfg s c).2 = .nil → ((untrack cfg s c).1.ops i).phase = .queued ∨ ((untrack cfg s c).1.ops i).phase = .inProgress) := by
+    unfold untrack
+    exact enqueue_status cfg { s with shared := upd s.shared c none, failed := upd s.failed c false } (pinCid c) .unpin
+      (by intro e; cases e)
+  obtain ⟨i, h1, h2, h3, h4⟩ := key
+  refine ⟨i, h1, h2, ?_⟩
+  cases hret : (untrack cfg s c).2 with
+  | full => exact Or.inl ⟨rfl, h3 hret⟩
+  | nil =>
+    refine Or.inr ⟨rfl, ?_⟩
+    have hnc : ((untrack cfg s c).1.ops i).cancelled = false := by
+      cases hc : ((untrack cfg s c).1.ops i).cancelled with
+      | false => rfl
+      | true =>
+        have := hi.curCancelled c i h1 hc
+        rcases h4 hret with h | h <;> rw [h] at this <;> cases this
+    refine ⟨hnc, ?_⟩
+    rcases h4 hret with hq | hp
+    · rcases hi2.queuedIn c i h1 hnc hq with hin | hin
+      · have := hi.pinQTyp i hin
+        rw [h2] at this; cases this
+      · exact Or.inl hin
+    · obtain ⟨k, hk, hko⟩ := hi2.progIn c i h1 hnc hp
+      refine Or.inr ⟨k, hk, hko, ?_⟩
+      have hkk := hi.callKind k hk
+      rw [hko, h2] at hkk
+      cases hkd : k.kind with
+      | unpin => rfl
+      | pin => have := hkk.mp hkd; cases this
+
+/-- NOT the code (the shortcut seeded change C05f made): "a pin that still waits in the channel has not reached IPFS: cancel it and
+    forget it, there is nothing to unpin". Everything else as `untrack`. -/
+def untrackShortcut (cfg : Cfg) (s0 : State) (c : Nat) : State × Ret :=
+  match s0.cur c with
+  | some i =>
+    if (s0.ops i).typ = .pin ∧ (s0.ops i).phase = .queued then
+      ({ cancelOp s0 i with cur := upd s0.cur c none, shared := upd s0.shared c none, failed := upd s0.failed c false }, .nil)
+    else untrack cfg s0 c
+  | none => untrack cfg s0 c
+
+def rqCfg : Cfg := { cap := 2, workers := 1, ncids := 2 }
+def rqPin (c : Nat) : PinSpec := { cid := c, kind := .here, mode := .recursive, tag := 1 }
+
+/-- cid 0 pinned at the daemon (its operation done and cleaned), the single worker busy with cid 1, cid 0 re-tracked: waits in the channel -/
+def rqState : State :=
+  run rqCfg init [.track (rqPin 0), .deqPin, .effect 0, .retOk 0, .track (rqPin 1), .deqPin, .track (rqPin 0)]
+
+/-- The premise of the shortcut is wrong: what the daemon holds for a cid comes from EARLIER operations. With the shortcut
+    the schedule ends quiescent with the pinset empty, Status = unpinned, the daemon pinning cid 0, nothing for a recover
+    round to find — -/
+theorem unqueue_shortcut_breaks :
+    let s := run rqCfg (untrackShortcut rqCfg rqState 0).1 [.effect 1, .retOk 1, .deqPin]
+    statusOf rqState 0 = .pinQueued ∧ (untrackShortcut rqCfg rqState 0).2 = .nil ∧
+    quiescent 2 (observe s) = true ∧ (observe s).shared 0 = none ∧ (observe s).status 0 = .unpinned ∧
+    (observe s).daemon 0 = some (.recursive, 1) ∧ matchOrError (observe s) 0 = false ∧
+    (recover rqCfg s 0).2 = .nil ∧ (recover rqCfg s 0).1.cur 0 = none ∧ (recover rqCfg s 0).1.pinQ = [] ∧
+    (recover rqCfg s 0).1.unpinQ = [] ∧ (recover rqCfg s 0).1.calls = [] ∧ (recover rqCfg s 0).1.daemon 0 = some (.recursive, 1) := by
+  decide
+
+/-- — while the code's `untrack` on the same schedule ends with the daemon holding nothing for cid 0. -/
+theorem untrack_of_queued_pin_unpins :
+    let s := run rqCfg (untrack rqCfg rqState 0).1 [.effect 1, .retOk 1, .deqPin, .deqUnpin, .effect 3, .retOk 3]
+    quiescent 2 (observe s) = true ∧ (observe s).daemon 0 = none ∧ (observe s).status 0 = .unpinned ∧
+    daemonMatches (observe s) 0 = true := by
+  decide
+
+example : Reachable rqCfg rqState :=
+  .step _ (.step _ (.step _ (.step _ (.step _ (.step _ (.step _ .init))))))
+
+
+/-! ### whole histories after one instruction -/
+
+/-- Whole history after `Untrack(c)`: from ANY reachable state (nothing in the table for `c`, a pin still waiting in the channel,
+    a Pin request in flight whose effect has or has not landed, an error, the daemon pinning `c` from an earlier operation),
+    after ANY later events that do not re-track `c` — other instructions, recover rounds, worker steps, daemon successes,
+    failures, lost pins, any queue size — at every quiescent point the daemon holds nothing for `c` or `c` shows an error status. -/
+theorem untrack_converges (cfg : Cfg) (n : Nat) (s : State) (c : Nat) (hr : Reachable cfg s) (hc : c < n) (es : List Ev)
+    (hes : ∀ e ∈ es, touches c e = false)
+    (hq : quiescent n (observe (run cfg (untrack cfg s c).1 es)) = true) :
+    (run cfg (untrack cfg s c).1 es).daemon c = none ∨ isError (statusOf (run cfg (untrack cfg s c).1 es) c) = true := by
+  have hr1 : Reachable cfg (untrack cfg s c).1 := Reachable.step (.untrack c) hr
+  have hr2 := reachable_run8 cfg es _ hr1
+  have hm := quiescent_match_or_error cfg n _ hr2 hq c hc
+  have hsh : (run cfg (untrack cfg s c).1 es).shared c = none := by
+    rw [run_shared_untouched cfg c es _ hes]
+    unfold untrack
+    rw [enqueue_shared cfg _ (pinCid c) .unpin (by intro e; cases e)]
+    simp
+  simp only [matchOrError, daemonMatches, observe, hsh, Bool.or_eq_true, Option.isNone_iff_eq_none] at hm
+  exact hm
+
+/-- Whole history after `Track(p)` of a pin allocated here: after any later events that leave the pinset entry of `p.cid`
+    alone, at every quiescent point the daemon pins it IN THE RECORDED MODE or the cid shows an error status. -/
+theorem track_converges (cfg : Cfg) (n : Nat) (s : State) (p : PinSpec) (hk : p.kind = .here) (hr : Reachable cfg s)
+    (hc : p.cid < n) (es : List Ev) (hes : ∀ e ∈ es, touches p.cid e = false)
+    (hq : quiescent n (observe (run cfg (track cfg s p).1 es)) = true) :
+    ((run cfg (track cfg s p).1 es).daemon p.cid).map (·.1) = some p.mode ∨
+      isError (statusOf (run cfg (track cfg s p).1 es) p.cid) = true := by
+  have hr1 : Reachable cfg (track cfg s p).1 := Reachable.step (.track p) hr
+  have hr2 := reachable_run8 cfg es _ hr1
+  have hm := quiescent_match_or_error cfg n _ hr2 hq p.cid hc
+  have hsh : (run cfg (track cfg s p).1 es).shared p.cid = some p := by
+    rw [run_shared_untouched cfg p.cid es _ hes]
+    rw [track_shared]
+    simp
+  simp only [matchOrError, daemonMatches, daemonMode, observe, hsh, hk, Bool.or_eq_true, beq_iff_eq] at hm
+  exact hm
+
+/-- the hypotheses are met by the schedule of `untrack_of_queued_pin_unpins` (Untrack of a pin waiting in the channel) -/
+example : (∀ e ∈ [Ev.effect 1, .retOk 1, .deqPin, .deqUnpin, .effect 3, .retOk 3], touches 0 e = false) ∧
+    quiescent 2 (observe (run rqCfg (untrack rqCfg rqState 0).1 [.effect 1, .retOk 1, .deqPin, .deqUnpin, .effect 3, .retOk 3])) = true := by
+  decide
+
 /-! ### The anchored functions still read as the model was transcribed (regenerated from /repo on every run) -/
 
 theorem gen_source_Stateless_f_New : Gen.Stateless.f_New = Expected.Stateless.f_New := rfl
@@ -647,5 +783,14 @@ theorem gen_source_Operation_f_Operation_StatusSnapshot : Gen.Operation.f_Operat
 theorem gen_source_Operation_f_trackerStatus : Gen.Operation.f_trackerStatus = Expected.Operation.f_trackerStatus := rfl
 theorem gen_source_Operation_f_TrackerStatusToOperationPhase : Gen.Operation.f_TrackerStatusToOperationPhase = Expected.Operation.f_TrackerStatusToOperationPhase := rfl
 
+
+/-! ### inventory of the anchored files (round 8): a function ADDED to one of them has no transcribed twin above — these notice it -/
+
+theorem gen_inventory_Stateless : Gen.Stateless.funcs =
+    ["f_New", "f_Tracker_opWorker", "f_applyPinF", "f_Tracker_pin", "f_Tracker_unpin", "f_Tracker_enqueue", "f_Tracker_SetClient", "f_Tracker_Shutdown", "f_Tracker_Track", "f_Tracker_Untrack", "f_Tracker_StatusAll", "f_Tracker_statusAll", "f_Tracker_Status", "f_Tracker_RecoverAll", "f_Tracker_Recover", "f_Tracker_recoverWithPinInfo", "f_Tracker_ipfsStatusAll", "f_Tracker_localStatus", "f_Tracker_OpContext", "f_addError"] := rfl
+theorem gen_inventory_Optracker : Gen.Optracker.funcs =
+    ["f_OperationTracker_String", "f_NewOperationTracker", "f_OperationTracker_TrackNewOperation", "f_OperationTracker_Clean", "f_OperationTracker_Status", "f_OperationTracker_SetError", "f_OperationTracker_unsafePinInfo", "f_OperationTracker_Get", "f_OperationTracker_GetExists", "f_OperationTracker_GetAll", "f_OperationTracker_CleanAllDone", "f_OperationTracker_OpContext", "f_OperationTracker_Filter", "f_OperationTracker_filterOps", "f_filterOpsMap", "f_filter"] := rfl
+theorem gen_inventory_Operation : Gen.Operation.funcs =
+    ["f_NewOperation", "f_Operation_String", "f_Operation_Cid", "f_Operation_Context", "f_Operation_Cancel", "f_Operation_Phase", "f_Operation_SetPhase", "f_Operation_Error", "f_Operation_SetError", "f_Operation_Type", "f_Operation_Pin", "f_Operation_Timestamp", "f_Operation_Cancelled", "f_Operation_ToTrackerStatus", "f_Operation_StatusSnapshot", "f_trackerStatus", "f_TrackerStatusToOperationPhase"] := rfl
 
 end CV.C05
